@@ -10,7 +10,7 @@ def tok(o):
 def cop(o):
     n, a = o
     return {"send": "MoSend %d" % (a[0] if a else 0), "poll": "MoPoll %d" % (a[0] if a else 0), "drive": "MoDrive %d" % (a[0] if a else 0),
-            "create": "MoCreate", "drop": "MoDrop %d" % (a[0] if a else 0)}[n]
+            "count": "MoCount", "create": "MoCreate", "drop": "MoDrop %d" % (a[0] if a else 0)}[n]
 
 def mk_case(chan, N, M, k, progs, sched, meta=None):
     line = "multi chan=%s N=%d M=%d k=%d ; " % (chan, N, M, k) + " ; ".join(" ".join(tok(o) for o in p) for p in progs) + " ; S " + " ".join(map(str, sched))
@@ -61,6 +61,7 @@ def gen_history(rng, chan):
             i = rng.choice(alive); prog.append(("poll", [i])); pend[i] = max(0, pend[i] - 1)
         elif alive:
             i = rng.choice(alive); alive.remove(i); free.append(i); prog.append(("drop", [i]))
+        if rng.random() < 0.3: prog.append(("count", []))
     if not prog: prog = [("create", []), ("send", [1]), ("poll", [0])]
     sched = [0] * (len(prog) * 14 + 10)
     return mk_case(chan, N, M, k, [prog], sched, {"profile": "history"})
@@ -86,18 +87,33 @@ def oracle_fixed(case, recs):
         for t in set(sent.values()):
             mine = [v for v in vs if sent.get(v) == t]
             if mine != sorted(mine): hits.append((None, "listener %d yields producer %d's events out of order: %s" % (i, t, mine)))
-    # completeness at quiescence: all producers done, every listener driven and parked
-    driven = [a[0] for p in progs for n, a in p if n == "drive"]
-    from .unigen import end_states
-    st = end_states(case, recs)
-    if sorted(driven) == list(range(k)) and all(v != "running" for v in st.values()) and len(ok) == len(sent):
-        for i in range(k):
-            if sorted(per.get(i, [])) != sorted(ok):
-                # a stuck event with a parked listener is C04's business (known lost wake-ups on the atomic kinds); C03 reports loss only
-                # when the listener's ring really does not hold the event any more: here we cannot look inside, so only duplicates /
-                # inventions / order are C03 violations; missing events are reported when nothing is pending for that listener
-                pass
+    # completeness at quiescence (no operation in progress): what a listener yielded plus what it still yields when polled
+    # now is, per listener, every accepted event exactly once with each producer's events in order
+    fin = final_info(recs)
+    if fin is not None:
+        quiet, drained, bad = fin
+        for v in bad:
+            if list(sent).count(v) == 1: hits.append((None, "event %d reached the listeners at different addresses (not one shared allocation)" % v))
+        if quiet and len(ok) == len(sent):
+            for i in range(k):
+                allv = per.get(i, []) + drained.get(i, [])
+                if sorted(allv) != sorted(ok):
+                    missing = sorted(set(ok) - set(allv)); extra = [v for v in allv if allv.count(v) > 1 or v not in sent]
+                    hits.append((None, "listener %d: accepted events %s never reach it / surplus %s (yielded %s, still queued %s)" % (i, missing, extra, per.get(i, []), drained.get(i, []))))
+                for t in set(sent.values()):
+                    mine = [v for v in allv if sent.get(v) == t]
+                    if mine != sorted(mine): hits.append((None, "listener %d gets producer %d's events out of order: %s" % (i, t, mine)))
     return hits
+
+def final_info(recs):
+    """(quiescent, {stream: [values still queued]}, [values seen at several addresses]) from the final record"""
+    f = [r for r in recs if r[0] == "final"]
+    if not f or not f[0][1]: return None
+    d = list(f[0][1]); quiet = d[0] == 1; j = 1; drained = {}
+    while j < len(d) and d[j] != -1:
+        i, n = d[j], d[j+1]; drained[i] = d[j+2:j+2+n]; j += 2 + n
+    bad = d[j+2:j+2+d[j+1]] if j < len(d) else []
+    return quiet, drained, bad
 
 def oracle_history(case, recs):
     """C10 on a sequential history: a stream yields only events accepted during its lifetime, in order, at most once"""
@@ -126,7 +142,18 @@ def oracle_history(case, recs):
                 hits.append((None, "stream %d answered Pending although %s were sent during its lifetime and not yet yielded" % (i, alive[i])))
         elif n == "drop":
             if r[2] == 18: alive.pop(a[0], None)
-        if r[0] == "panic": hits.append((None, "panic"))
+        elif n == "count":
+            if r[3] != len(alive): hits.append((None, "running_streams_count() = %d with %d live streams" % (r[3], len(alive))))
+    for r in recs:
+        if r[0] == "panic": hits.append((None, "panic in thread %d" % r[1]))
+    # at the end: what each live stream still yields must be exactly the rest of its lifetime's events
+    fin = final_info(recs)
+    if fin is not None and fin[0]:
+        for i, vs in fin[1].items():
+            if i in alive and vs != alive[i]:
+                stale = any(v in order[:created_at.get(i, 0)] for v in vs)
+                hits.append(("C10.stale_events_on_recycled_id" if stale and [v for v in vs if v not in order[:created_at.get(i, 0)]] == alive[i] else None,
+                             "stream %d still holds %s but the unconsumed events of its lifetime are %s" % (i, vs, alive[i])))
     return hits
 
 def nontrivial_fixed(case, recs):
